@@ -420,5 +420,10 @@ def run(repo, check):
     _sh(check, repo, _c01.rule_r4, 'C07.R12', 'bitmap operators 235000 / 236000 / 237000 / 237255 change exactly the registers FM-94 says (shared with C01.R4)', args=(check.tier,),
         keep=lambda f: any(k in f.key for k in (':222', ':223', ':224', ':225', ':232', ':235', ':236', ':237')))
     _sh(check, repo, _c06.rule_r3, 'C07.R13', 'attributes are wired subset by subset, each on its own records (shared with C06.R3)', args=('C07.R13', (False, True)))
+    _sh(check, repo, c09.rule_attributes_shown, 'C07.R15', 'the hierarchical views show each attribute under its owner (shared with C09.R10)', args=('C07.R15',))
+    from sa.rules import c13 as _c13
+    _sh(check, repo, _c13.rule_r9, 'C07.R14', 'every message starts from its own bitmap / associated-field registers: two coder states of one process share no mutable '
+        'register object (shared with C13.R9)',
+        keep=lambda f: any(k in f.key for k in ('nbits_of_associated', 'bitmap', 'back_referenc', 'bsr_modifier', 'new_refvals', 'n_031031')))
     check.assumptions = ['each primitive appends exactly one flat entry (C01.R3), so the k-th emission is flat index k',
                          'which element a given bitmap designates in a given message is a runtime fact; the rules decide the mechanism']
